@@ -261,6 +261,33 @@ int main(int argc, char **argv) {
         line(q + "B.gather0 :" + join(gv));
       }
     }
+    // ---- consume_all (C12): every element handed to the callback exactly once, the container left empty ----
+    {
+      set<long>      S4(world);
+      multiset<long> T4(world);
+      for (auto &k : S.m_impl.m_local_set) S4.async_insert(k + 1);          // same sizes as S / T, other owners
+      for (auto &k : T.m_impl.m_local_set) { T4.async_insert(k + 1); }
+      T4.async_insert(4242); T4.async_insert(4242);                          // a key held several times, inserted by every rank
+      world.barrier();
+      std::string s = "W " + std::to_string(me) + " S4 :";
+      for (auto &k : S4.m_impl.m_local_set) s += " " + std::to_string(k);
+      line(s);
+      s = "W " + std::to_string(me) + " T4 :";
+      for (auto &k : T4.m_impl.m_local_set) s += " " + std::to_string(k);
+      line(s);
+      world.cf_barrier();
+      std::map<long, long> cs, ct;
+      S4.consume_all([&cs](const long &k) { cs[k]++; });
+      T4.consume_all([&ct](const long &k) { ct[k]++; });
+      s = "W " + std::to_string(me) + " S4C :";
+      for (auto &kv : cs) s += " " + std::to_string(kv.first) + "=" + std::to_string(kv.second);
+      line(s);
+      s = "W " + std::to_string(me) + " T4C :";
+      for (auto &kv : ct) s += " " + std::to_string(kv.first) + "=" + std::to_string(kv.second);
+      line(s);
+      line("W " + std::to_string(me) + " AFTER : " + std::to_string(S4.size()) + " " + std::to_string(T4.size()));
+      world.cf_barrier();
+    }
     // ---- reduce_by_key_map (C16): over a rank-local vector of pairs (colliding cache slots) and over a distributed map ----
     {
       const long keys[5] = {0, 1, 1048576, 99, 2097153};
